@@ -223,7 +223,7 @@ func e2eSession(run *vk.Run, srv *vsrv.Server, a e2eArgs, s int) {
 	}
 	// let the loop's and the writer's NACKs and at least one more receiver report come out
 	time.Sleep(1300 * time.Millisecond)
-	if s%4 == 2 {
+	if s%2 == 0 {
 		totalLossInterval(run, fail, tr, sub, ssrc, lastLost)
 	}
 	traces.mu.Lock()
